@@ -14,30 +14,59 @@
    keeps them (PoolHandler.original_*, auto_checkpoint's local `prev`).     *)
 EXTENDS Naturals, Sequences, FiniteSets, TLC
 
-CONSTANTS Pools, MaxDepth, MaxOps
+CONSTANTS Pools, MaxDepth, MaxOps, MaxHandlers,
+          PoolOpts,   \* subset of BOOLEAN \X BOOLEAN \X BOOLEAN: <<close_pool, parallelize_prior, pool given>>
+          AutoOpts    \* subset of Paths \X {1, 3} \X BOOLEAN:     <<path, every, save_config>>
 
 NoDefaults == [on |-> FALSE, path |-> "none", every |-> 0, save_config |-> FALSE]
 Paths == {"f1", "f2"}
 
-VARIABLES L, P, defaults, stack, closed, joined, nops, op, lastPop
-vars == <<L, P, defaults, stack, closed, joined, nops, op, lastPop>>
+VARIABLES L, P, defaults, stack, closed, joined, nops, op, lastPop,
+          handlers,     \* PoolHandler objects constructed so far (enable_pool(...) returns one; `with` enters it)
+          userL, userP  \* what the user last assigned outside every context
+vars == <<L, P, defaults, stack, closed, joined, nops, op, lastPop, handlers, userL, userP>>
 
 Init ==
   /\ L = [f |-> "L0", pool |-> "none"] /\ P = [f |-> "P0", pool |-> "none"] /\ defaults = NoDefaults /\ stack = <<>>
   /\ closed = [p \in Pools |-> 0] /\ joined = [p \in Pools |-> 0]
   /\ nops = 0 /\ op = <<"init">> /\ lastPop = [valid |-> FALSE, ok |-> TRUE, closeOk |-> TRUE]
+  /\ handlers = <<>> /\ userL = L /\ userP = P
 
 Snap == [L |-> L, P |-> P, defaults |-> defaults]
 
-\* with aspire.enable_pool(pool, close_pool=c, parallelize_prior=pp):
-EnterPool(p, c, pp, usePool) ==
-  /\ nops < MaxOps /\ Len(stack) < MaxDepth
-  /\ nops' = nops + 1 /\ op' = <<"EnterPool", p, c, pp, usePool>>
-  /\ stack' = Append(stack, [kind |-> "pool", snap |-> Snap, origL |-> L, origP |-> P,
-                             pool |-> p, close |-> c, usePool |-> usePool])
-  /\ L' = IF usePool THEN [L EXCEPT !.pool = p] ELSE L
-  /\ P' = IF usePool /\ pp THEN [P EXCEPT !.pool = p] ELSE P
-  /\ UNCHANGED <<defaults, closed, joined, lastPop>>
+\* h = aspire.enable_pool(pool, close_pool=c, parallelize_prior=pp): constructs the handler, changes nothing.
+\* The usual inline form `with aspire.enable_pool(...)` is MakePool immediately followed by EnterPool;
+\* handlers prepared up front and entered later (or entered again after use) are the other behaviours.
+MakePool(p, c, pp, usePool) ==
+  /\ nops < MaxOps /\ Len(handlers) < MaxHandlers
+  /\ nops' = nops + 1 /\ op' = <<"MakePool", p, c, pp, usePool>>
+  /\ handlers' = Append(handlers, [pool |-> p, close |-> c, pp |-> pp, usePool |-> usePool])
+  /\ UNCHANGED <<L, P, defaults, stack, closed, joined, lastPop, userL, userP>>
+
+Active(i) == \E k \in 1..Len(stack) : stack[k].kind = "pool" /\ stack[k].h = i
+
+\* h.__enter__(): the values to restore are the ones the instance has *now*
+EnterPool(i) ==
+  /\ nops < MaxOps /\ Len(stack) < MaxDepth /\ i \in 1..Len(handlers) /\ ~Active(i)
+  /\ nops' = nops + 1 /\ op' = <<"EnterPool", i>>
+  /\ LET h == handlers[i] IN
+     /\ stack' = Append(stack, [kind |-> "pool", snap |-> Snap, origL |-> L, origP |-> P, h |-> i,
+                                pool |-> h.pool, close |-> h.close, usePool |-> h.usePool])
+     /\ L' = IF h.usePool THEN [L EXCEPT !.pool = h.pool] ELSE L
+     /\ P' = IF h.usePool /\ h.pp THEN [P EXCEPT !.pool = h.pool] ELSE P
+  /\ UNCHANGED <<defaults, closed, joined, lastPop, handlers, userL, userP>>
+
+\* the user assigns another likelihood / prior to the instance between two uses
+SetL ==
+  /\ nops < MaxOps /\ stack = <<>> /\ L.f = "L0"
+  /\ nops' = nops + 1 /\ op' = <<"SetL">>
+  /\ L' = [f |-> "L1", pool |-> "none"] /\ userL' = L'
+  /\ UNCHANGED <<P, defaults, stack, closed, joined, lastPop, handlers, userP>>
+SetP ==
+  /\ nops < MaxOps /\ stack = <<>> /\ P.f = "P0"
+  /\ nops' = nops + 1 /\ op' = <<"SetP">>
+  /\ P' = [f |-> "P1", pool |-> "none"] /\ userP' = P'
+  /\ UNCHANGED <<L, defaults, stack, closed, joined, lastPop, handlers, userL>>
 
 \* with aspire.auto_checkpoint(path, every, save_config):
 EnterAuto(path, ev, sc) ==
@@ -45,7 +74,7 @@ EnterAuto(path, ev, sc) ==
   /\ nops' = nops + 1 /\ op' = <<"EnterAuto", path, ev, sc>>
   /\ stack' = Append(stack, [kind |-> "auto", snap |-> Snap, prev |-> defaults])
   /\ defaults' = [on |-> TRUE, path |-> path, every |-> ev, save_config |-> sc]
-  /\ UNCHANGED <<L, P, closed, joined, lastPop>>
+  /\ UNCHANGED <<L, P, closed, joined, lastPop, handlers, userL, userP>>
 
 \* the exit code of the innermost context (normal exit and exception take the same path)
 PopTop(st, l, p, d, cl, jn) ==
@@ -75,6 +104,7 @@ Exit ==
   /\ LET r == Unwind(1, stack, L, P, defaults, closed, joined) IN
      /\ stack' = r.st /\ L' = r.L /\ P' = r.P /\ defaults' = r.d /\ closed' = r.cl /\ joined' = r.jn
      /\ lastPop' = [valid |-> TRUE, ok |-> r.ok, closeOk |-> r.closeOk]
+  /\ UNCHANGED <<handlers, userL, userP>>
 
 \* an exception raised in the innermost body and caught k levels up
 Raise(k) ==
@@ -83,10 +113,13 @@ Raise(k) ==
   /\ LET r == Unwind(k, stack, L, P, defaults, closed, joined) IN
      /\ stack' = r.st /\ L' = r.L /\ P' = r.P /\ defaults' = r.d /\ closed' = r.cl /\ joined' = r.jn
      /\ lastPop' = [valid |-> TRUE, ok |-> r.ok, closeOk |-> r.closeOk]
+  /\ UNCHANGED <<handlers, userL, userP>>
 
 Next ==
-  \/ \E p \in Pools, c \in BOOLEAN, pp \in BOOLEAN, u \in BOOLEAN : EnterPool(p, c, pp, u)
-  \/ \E path \in Paths, ev \in {1, 3}, sc \in BOOLEAN : EnterAuto(path, ev, sc)
+  \/ \E p \in Pools, o \in PoolOpts : MakePool(p, o[1], o[2], o[3])
+  \/ \E i \in 1..MaxHandlers : EnterPool(i)
+  \/ SetL \/ SetP
+  \/ \E o \in AutoOpts : EnterAuto(o[1], o[2], o[3])
   \/ Exit
   \/ \E k \in 1..MaxDepth : Raise(k)
 
@@ -96,6 +129,11 @@ Spec == Init /\ [][Next]_vars
 ContextsRestored == lastPop.valid => lastPop.ok
 PoolClosedIffAsked == lastPop.valid => lastPop.closeOk
 \* once every context is closed the instance is as it was created
+AllPoolOpts == BOOLEAN \X BOOLEAN \X BOOLEAN
+AllAutoOpts == Paths \X {1, 3} \X BOOLEAN
+\* reduced option sets for the deep replay graph
+FewPoolOpts == {<<FALSE, TRUE, TRUE>>, <<TRUE, FALSE, TRUE>>, <<FALSE, TRUE, FALSE>>}
+FewAutoOpts == {<<"f1", 1, TRUE>>, <<"f2", 3, FALSE>>}
 AllClosedMeansPristine ==
-  (Len(stack) = 0) => (L = [f |-> "L0", pool |-> "none"] /\ P = [f |-> "P0", pool |-> "none"] /\ defaults = NoDefaults)
+  (Len(stack) = 0) => (L = userL /\ P = userP /\ defaults = NoDefaults)
 =============================================================================
